@@ -5,7 +5,7 @@
 -/
 import DymVerif.Lemmas.CoreRolesS
 namespace DymVerif.C07
-open DymVerif DymVerif.Core
+open DymVerif DymVerif.Core DymVerif.Core.Roles
 
 /-- a rejected message leaves every component of the state untouched (the model returns its input
     state on error, mirroring baseapp's per-message cache context; that the real code does so is
